@@ -10,7 +10,7 @@ from __future__ import annotations
 import common
 from plain import make_sd
 
-RULE = ("random network, 5 random solver queries (trappist min/max/fix, reverse_time, ensure in {empty, random, trap}, 0-3 "
+RULE = ("random network (4%: one wide update function with a shared parity sub-function), 5 random solver queries (trappist min/max/fix, reverse_time, ensure in {empty, random, trap}, 0-3 "
         "avoid subspaces incl. nested ones and the empty one, source list empty/auto/explicit, limit in {None,0,1,2,5}) and 3 "
         "reduced-STG queries (random retained set, ensure, avoid); both on the global net and on a net restricted to a node; "
         "non-trivial = the reference answer has at least two elements or a constraint excludes a trap space; distinct by case hash")
